@@ -993,7 +993,9 @@ func (r *transformingReader) Read(data []byte) (n int, err error) {
 			// If this is the first request message, the error is EOF, and there's a body
 			// preparer, we'll allow it and let the preparer produce a message from zero
 			// request bytes.
-			if !r.consumedFirst && errors.Is(err, io.EOF) && r.rw.op.clientReqNeedsPrep {
+			if !r.consumedFirst && errors.Is(err, io.EOF) && (r.rw.op.clientReqNeedsPrep || r.rw.op.clientEnveloper == nil) {
+				// (for a client protocol without envelopes, an empty body is the one
+				// request message, which happens to have an empty encoding)
 				r.msg.markReady()
 			} else {
 				r.err = err
